@@ -277,14 +277,14 @@ def r1_emit(prog, rep: Report):
     rep.check("C15.R1", call, "store", good, f"self.{bfb.storage}[{i}] = {x}",
               "__call__ does not store the item under its serial number",
               scenario="items are emitted under the wrong serial: imap yields chunks in the wrong order")
-    pr = prog.method(pb, "print")
+    pr = prog.method_raw(pb, "print")
     _run_emit(prog, rep, bfp, pr, "print", "print", serial=pr.params[1], value=pr.params[2], need_store_when_not_next=True,
               scenario="p.print(1,'B'); p.print(0,'A') must print A then B exactly once each")
-    _run_emit(prog, rep, bfp, prog.method(pb, "flush"), "print", "flush",
+    _run_emit(prog, rep, bfp, prog.method_raw(pb, "flush"), "print", "flush",
               scenario="p.print(2,'C'); p.flush(); p.flush() prints C twice if the key is not deleted, and waiting_for must "
                        "move past the flushed serials")
     # flush iterates the stored keys in ascending order
-    fl = prog.method(pb, "flush")
+    fl = prog.method_raw(pb, "flush")
     loops = [n for n in walk_own(fl.node) if isinstance(n, ast.For)]
     from ..flow import Flow
     it0 = Flow(fl.node).expand(loops[0].iter) if len(loops) == 1 else None      # keys = sorted(...); for k in keys
